@@ -329,6 +329,92 @@ def requests_on_the_replaced_ike_sa(ck, mons, seed, w):
     ck.nontrivial(('replaced', kind, victim, w))
 
 
+BAD_REKEY_ANSWERS = ('missing-dh-transform', 'missing-prf-transform', 'foreign-encryption', 'two-integrity-transforms-one-foreign', 'ke-of-another-group', 'no-ke-payload', 'no-nonce',
+                     'esp-proposal', 'empty-spi', 'ke-too-short', 'no-sa-payload')
+
+
+def unacceptable_ike_rekey_answer(ck, mons, seed, w):
+    """The daemon rekeys its IKE_SA; the peer's AUTHENTIC answer looks like a success (SA, nonce, KE) but is not acceptable: not a complete choice from the offer, a KE of another
+    group or length, a missing payload. Whatever the daemon decides (keep the old IKE_SA, close it), after every loop turn its kernel holds exactly the SAs it tracks."""
+    from vf.ref import peer as refpeer, codec, groups
+    from vf.checks import c02
+    rng = ck.rng('bad-rekey-answer', w)
+    kind = BAD_REKEY_ANSWERS[w % len(BAD_REKEY_ANSWERS)]
+    kw = dict(dpd=600, lifetime=3600, mode='tunnel', a_subnet='10.1.0.0/16', b_subnet='10.2.0.0/16', ip_proto='any', a_port=0, b_port=0)
+    sim, a, b = S.make_pair(seed + w, **kw)
+    sim.case = {'family': 'unacceptable-ike-rekey-answer', 'kind': kind, 'actions': []}
+    for m_ in mons:
+        m_.reset()
+        sim.monitors.append(lambda s_, ep, rec, m_=m_: m_.on_step(s_, ep, rec) if ep is a else None)
+    pr = refpeer.Peer(S.B4, S.A4, rng, c02.ID_B, c02.PSK_B, quirks=False)
+    if not pr.establish(sim, a, saddr='10.1.0.1', daddr='10.2.0.1') or not c02.established(a):
+        ck.count('bad_rekey_answer.setup_failed')
+        return
+    sim.acquire(a, 0, saddr='10.1.0.2', daddr='10.2.0.2', sport=2002)
+    pr.serve(sim, a)
+
+    def answer(hdr, inner):
+        sa = next(x for x in inner if x['type'] == codec.SA)
+        ke = next((x for x in inner if x['type'] == codec.KE), None)
+        offer = sa['proposals'][0]
+        chosen = {}
+        for t in offer['transforms']:
+            chosen.setdefault(t['type'], t)
+        trs = [chosen[k] for k in sorted(chosen)]
+        g = ke['group'] if ke else 19
+        pub = groups.dh_public(g, rng.getrandbits(200) | 1)
+        spi, proto = gen_bytes(rng, 8), 1
+        if kind == 'missing-dh-transform':
+            trs = [t for t in trs if t['type'] != 4]
+        elif kind == 'missing-prf-transform':
+            trs = [t for t in trs if t['type'] != 2]
+        elif kind == 'foreign-encryption':
+            trs = [{'type': 1, 'id': 3, 'keylen': None}] + [t for t in trs if t['type'] != 1]
+        elif kind == 'two-integrity-transforms-one-foreign':
+            trs = trs + [{'type': 3, 'id': 1, 'keylen': None}]
+        elif kind == 'ke-of-another-group':
+            g = 20 if g != 20 else 19
+            pub = groups.dh_public(g, rng.getrandbits(200) | 1)
+        elif kind == 'esp-proposal':
+            proto, spi = 3, gen_bytes(rng, 4)
+        elif kind == 'empty-spi':
+            spi = b''
+        elif kind == 'ke-too-short':
+            pub = pub[:-5]
+        pls = [{'type': codec.SA, 'critical': False, 'proposals': [{'num': offer['num'], 'proto': proto, 'spi': spi, 'transforms': trs}]},
+               {'type': codec.NONCE, 'critical': False, 'data': gen_bytes(rng, 32)}, {'type': codec.KE, 'critical': False, 'group': g, 'data': pub}]
+        if kind == 'no-ke-payload':
+            pls = pls[:2]
+        elif kind == 'no-nonce':
+            pls = [pls[0], pls[2]]
+        elif kind == 'no-sa-payload':
+            pls = pls[1:]
+        return pls
+    pr.ike_rekey_answer = answer
+    ike = next(x for x in a.ctl.ike_sas if x.state.name == 'ESTABLISHED')
+    had = len(a.kernel.sad)
+    ike.rekey_ike_sa_at = sim.clock.t - 1
+    ike.delete_ike_sa_at = sim.clock.t + 29
+    a.step('tick')
+    out = pr.serve(sim, a)
+    ck.count('bad_rekey_answer.runs')
+    if ('request', 'ike-rekey-answered-by-the-script') in out:
+        ck.count('bad_rekey_answer.answers_delivered')
+    ck.seen('bad_rekey_answer.outcomes', (kind, tuple(sorted(x.state.name for x in a.ctl.ike_sas)), len(a.kernel.sad)))
+    ck.nontrivial(('bad-rekey-answer', kind, w))
+    for _ in range(4):
+        pr.serve(sim, a)
+        sim.clock.advance(1.0)
+        a.step('tick')
+    # ... and whatever is left is closed in the ordinary way
+    for x in list(a.ctl.ike_sas):
+        if x.state.name == 'ESTABLISHED':
+            x.delete_ike_sa_at = sim.clock.t - 1
+    a.step('tick')
+    pr.serve(sim, a)
+    a.step('tick')
+
+
 def judge_new_child(ck, sc):
     for who, same_ike, gone in getattr(sc, 'new_child_checks', []):
         ck.count('new_child_keeps_others.checked')
@@ -395,6 +481,9 @@ def run(ck):
     for w in range(28 if not ck.thorough() else 700):
         if ck.mine(w):
             requests_on_the_replaced_ike_sa(ck, mons, base + 4242, w)
+    for w in range(3 * len(BAD_REKEY_ANSWERS) if not ck.thorough() else 60 * len(BAD_REKEY_ANSWERS)):
+        if ck.mine(w + 1):
+            unacceptable_ike_rekey_answer(ck, mons, base + 5151, w)
     for ci in range(30):
         if ck.mine(ci):
             odd_spi_sizes(ck, mons, base + 600 + ci, ci)
@@ -421,6 +510,7 @@ def verdict(ck):
     ck.floor('authentic messages with a CHILD_SA SPI of another size than 4 after which the SAD equalled the tracked CHILD_SAs', ck.counters['odd_spi.sad_equals_tracked'], 24)
     ck.floor('CHILD_SA creations after a (possibly refused) rekey that left every other pair in the kernel', ck.counters['new_child_keeps_others.held'], 30)
     ck.floor('authentic INFORMATIONAL requests delivered on an IKE_SA already replaced by a rekey', ck.counters['replaced.requests_delivered'], 20)
+    ck.floor('authentic but unacceptable answers to an IKE_SA rekey of the daemon delivered', ck.counters['bad_rekey_answer.answers_delivered'], 25)
     ck.floor('steps compared', ck.counters['sad.steps_checked'], 20000)
     ck.floor('non-empty equal comparisons', ck.counters['sad.equal_nonempty'], 10000)
     ck.floor('faults injected', ck.counters['faults.injected'], 150)
